@@ -267,5 +267,7 @@ pub fn run_all(frames: &[String], stats: &mut Stats) {
     run_target!(TReplyUnit, frames.iter().copied(), stats);
     run_target!(TReplyBorrow, frames.iter().copied(), stats);
     run_target!(TReplyNever, frames.iter().copied(), stats);
+    run_target!(TReplyOne, frames.iter().copied(), stats);
+    run_target!(TReplyOneUnit, frames.iter().copied(), stats);
     ev(json!({"ev":"end"}));
 }
